@@ -284,8 +284,6 @@ Proof.
     f_equal. apply pf_kw; [exact HK|exact HW|exact HlW|left; reflexivity].
 Qed.
 
-Definition head_kind_not_po (P V K W : list param) : Prop := True.
-
 Lemma print_from_shape O P V K W :
   all_kind PO O -> all_kind PK P -> all_kind VP V -> all_kind KO K -> all_kind VK W ->
   (length V <= 1)%nat -> (length W <= 1)%nat ->
@@ -527,8 +525,6 @@ Qed.
 Lemma add_anns_app oa A B an : add_anns oa (A ++ B) an = add_anns oa B (add_anns oa A an).
 Proof. unfold add_anns. apply fold_left_app. Qed.
 
-Definition names_opt (V : list param) : list name := names_of V.
-
 (* read_sig of str(sig), native placement of the parameters (no kwoargs / posoargs
    modifiers), with or without modifiers.annotate *)
 Definition native_params (oa : bool) (O P V K W : list param) : list ptok :=
@@ -618,7 +614,7 @@ Lemma set_all_po_dparam oa A : set_all_po (map (dparam oa PK) A) = map (dparam o
 Proof. unfold set_all_po. rewrite map_map. reflexivity. Qed.
 
 (* hypotheses on the parameters themselves: annotations are eagerly evaluated
-   objects, and a star parameter has no default (inspect.Parameter refuses one) *)
+   objects, and a star parameter has no default (inspect refuses to build one) *)
 Definition eager_p (p : param) : bool := uann_eqb (puann p) (MA.preevaluated (pann p)).
 Definition eager (ps : list param) : bool := forallb eager_p ps.
 Definition star_nodef_p (p : param) : bool :=
@@ -1567,3 +1563,780 @@ Proof.
 Qed.
 
 End PrepareKwo.
+
+(* ================================================================ part 9 *)
+(* the advertised order with modifiers.kwoargs: keyword-only parameters without
+   a default first, then those with one (each group in its original order) *)
+Definition ko_nodef (p : param) : bool := is_kind KO p && negb (has_def p).
+Definition ko_def (p : param) : bool := is_kind KO p && has_def p.
+Definition ko_sorted (ps : list param) : list param :=
+  filter (fun p => negb (is_kind KO p) && negb (is_kind VK p)) ps
+  ++ filter ko_nodef ps ++ filter ko_def ps ++ filter (is_kind VK) ps.
+
+Lemma filter_ext_in'' {A} (f g : A -> bool) l : (forall x, In x l -> f x = g x) -> filter f l = filter g l.
+Proof.
+  induction l as [|x l IH]; intros H; [reflexivity|]. cbn [filter].
+  rewrite (H x (or_introl eq_refl)), IH; [reflexivity|]. intros y Hy. apply H. right. exact Hy.
+Qed.
+
+Lemma ko_sorted_shape P V K W :
+  all_kind PK P -> all_kind VP V -> all_kind KO K -> all_kind VK W ->
+  ko_sorted (P ++ V ++ K ++ W) = P ++ V ++ filter nodef_p K ++ filter has_def K ++ W.
+Proof.
+  intros HP HV HK HW. unfold ko_sorted. rewrite !filter_app.
+  set (f := fun p => negb (is_kind KO p) && negb (is_kind VK p)).
+  rewrite (filter_kind_all PK P f HP) by (intros p E; unfold f; rewrite (is_kind_of PK KO p E), (is_kind_of PK VK p E); reflexivity).
+  rewrite (filter_kind_all VP V f HV) by (intros p E; unfold f; rewrite (is_kind_of VP KO p E), (is_kind_of VP VK p E); reflexivity).
+  rewrite (filter_kind_none KO K f HK) by (intros p E; unfold f; rewrite (is_kind_of KO KO p E); reflexivity).
+  rewrite (filter_kind_none VK W f HW) by (intros p E; unfold f; rewrite (is_kind_of VK KO p E), (is_kind_of VK VK p E); reflexivity).
+  rewrite (filter_kind_none PK P ko_nodef HP) by (intros p E; unfold ko_nodef; rewrite (is_kind_of PK KO p E); reflexivity).
+  rewrite (filter_kind_none VP V ko_nodef HV) by (intros p E; unfold ko_nodef; rewrite (is_kind_of VP KO p E); reflexivity).
+  rewrite (filter_kind_none VK W ko_nodef HW) by (intros p E; unfold ko_nodef; rewrite (is_kind_of VK KO p E); reflexivity).
+  rewrite (filter_kind_none PK P ko_def HP) by (intros p E; unfold ko_def; rewrite (is_kind_of PK KO p E); reflexivity).
+  rewrite (filter_kind_none VP V ko_def HV) by (intros p E; unfold ko_def; rewrite (is_kind_of VP KO p E); reflexivity).
+  rewrite (filter_kind_none VK W ko_def HW) by (intros p E; unfold ko_def; rewrite (is_kind_of VK KO p E); reflexivity).
+  rewrite (filter_kind_none PK P (is_kind VK) HP) by (intros p E; rewrite (is_kind_of PK VK p E); reflexivity).
+  rewrite (filter_kind_none VP V (is_kind VK) HV) by (intros p E; rewrite (is_kind_of VP VK p E); reflexivity).
+  rewrite (filter_kind_none KO K (is_kind VK) HK) by (intros p E; rewrite (is_kind_of KO VK p E); reflexivity).
+  rewrite (filter_kind_all VK W (is_kind VK) HW) by (intros p E; rewrite (is_kind_of VK VK p E); reflexivity).
+  assert (E1 : filter ko_nodef K = filter nodef_p K).
+  { apply filter_ext_in''. intros p Hp. unfold ko_nodef, nodef_p. rewrite (is_kind_of KO KO p (HK p Hp)). reflexivity. }
+  assert (E2 : filter ko_def K = filter has_def K).
+  { apply filter_ext_in''. intros p Hp. unfold ko_def. rewrite (is_kind_of KO KO p (HK p Hp)). reflexivity. }
+  rewrite E1, E2. cbn [app]. rewrite !app_nil_r. rewrite <- !app_assoc. reflexivity.
+Qed.
+
+Lemma filter_partition_perm {A} (f : A -> bool) l :
+  Permutation (filter (fun x => negb (f x)) l ++ filter f l) l.
+Proof.
+  induction l as [|x l IH]; [constructor|]. cbn [filter]. destruct (f x); cbn [negb app].
+  - apply Permutation_sym. apply Permutation_cons_app. apply Permutation_sym. exact IH.
+  - constructor. exact IH.
+Qed.
+
+Lemma ko_split_perm K : Permutation (filter nodef_p K ++ filter has_def K) K.
+Proof. exact (filter_partition_perm has_def K). Qed.
+
+Lemma item_setPK oa p : plain p -> item oa (set_kind PK p) = item oa p.
+Proof. unfold plain, item, stars_of. cbn [pkind set_kind pname pann pdef]. intros H. rewrite H. reflexivity. Qed.
+
+Lemma map_item_setPK oa A : (forall p, In p A -> plain p) ->
+  map (item oa) (map (set_kind PK) A) = map (item oa) A.
+Proof. intros H. rewrite map_map. apply map_ext_in. intros p Hp. apply item_setPK. exact (H p Hp). Qed.
+
+Lemma set_kind_same k p : pkind p = k -> set_kind k p = p.
+Proof. intros <-. destruct p; reflexivity. Qed.
+
+Lemma filter_map_name (f : param -> param) (g : name -> bool) A :
+  (forall p, pname (f p) = pname p) ->
+  filter (fun p => g (pname p)) (map f A) = map f (filter (fun p => g (pname p)) A).
+Proof.
+  intros Hf. induction A as [|p A IH]; [reflexivity|]. cbn [map filter]. rewrite Hf.
+  destruct (g (pname p)); cbn [map]; rewrite IH; reflexivity.
+Qed.
+
+Lemma valid_sig_validate ps : valid_sig ps = true -> validate ps = true.
+Proof. unfold valid_sig. intros H. apply andb_true_iff in H. destruct H as [H _]. apply andb_true_iff in H. tauto. Qed.
+
+Lemma NoDup_names_perm A B : Permutation A B -> NoDup (names_of A) -> NoDup (names_of B).
+Proof. intros HP. apply Permutation_NoDup. unfold names_of. apply Permutation_map. exact HP. Qed.
+
+(* the reordering of the parameters that read_sig performs, as a permutation *)
+Lemma def_order_perm (P1 P2 V Kn Kd W : list param) :
+  Permutation ((P1 ++ P2) ++ V ++ (Kn ++ Kd) ++ W) (((P1 ++ Kn) ++ (P2 ++ Kd)) ++ V ++ W).
+Proof.
+  rewrite <- !app_assoc. apply Permutation_app_head.
+  (* P2 ++ V ++ Kn ++ Kd ++ W  ~  Kn ++ P2 ++ Kd ++ V ++ W *)
+  transitivity (P2 ++ Kn ++ V ++ Kd ++ W).
+  { apply Permutation_app_head. apply Permutation_app_swap_app. }
+  transitivity (Kn ++ P2 ++ V ++ Kd ++ W).
+  { apply Permutation_app_swap_app. }
+  apply Permutation_app_head. apply Permutation_app_head. apply Permutation_app_swap_app.
+Qed.
+
+Lemma NoDup_app_disj {A} (l1 l2 : list A) x : NoDup (l1 ++ l2) -> In x l1 -> ~ In x l2.
+Proof.
+  induction l1 as [|y l1 IH]; cbn [app]; intros ND H1 H2; [destruct H1|].
+  inversion ND as [|? ? Hnot ND']; subst. destruct H1 as [->|H1].
+  - apply Hnot. apply in_or_app. right. exact H2.
+  - exact (IH ND' H1 H2).
+Qed.
+
+Lemma mem_false_notin x l : ~ In x l -> mem x l = false.
+Proof. intros H. destruct (mem x l) eqn:E; [|reflexivity]. apply mem_In' in E. contradiction. Qed.
+
+Lemma star_nodef_app A B : star_nodef (A ++ B) = star_nodef A && star_nodef B.
+Proof. unfold star_nodef. apply forallb_app. Qed.
+
+Lemma star_nodef_nodef A : (forall p, In p A -> pdef p = None) -> star_nodef A = true.
+Proof.
+  intros H. unfold star_nodef. apply forallb_forall. intros p Hp. unfold star_nodef_p, has_def.
+  rewrite (H p Hp). rewrite andb_false_r. reflexivity.
+Qed.
+
+Lemma star_nodef_pk A : all_kind PK A -> star_nodef A = true.
+Proof.
+  intros H. unfold star_nodef. apply forallb_forall. intros p Hp. unfold star_nodef_p.
+  rewrite (is_kind_of PK VP p (H p Hp)), (is_kind_of PK VK p (H p Hp)). reflexivity.
+Qed.
+
+Lemma all_kind_app k A B : all_kind k A -> all_kind k B -> all_kind k (A ++ B).
+Proof. intros HA HB p Hp. apply in_app_or in Hp. destruct Hp; auto. Qed.
+
+Lemma all_kind_setPK A : all_kind PK (map (set_kind PK) A).
+Proof. intros p Hp. apply in_map_iff in Hp. destruct Hp as [q [<- _]]. reflexivity. Qed.
+
+Lemma all_kind_strip oa k A : all_kind k A -> all_kind k (map (strip oa) A).
+Proof. intros H p Hp. apply in_map_iff in Hp. destruct Hp as [q [<- Hq]]. exact (H q Hq). Qed.
+
+Lemma names_of_map_same (f : param -> param) A : (forall p, pname (f p) = pname p) ->
+  names_of (map f A) = names_of A.
+Proof. intros Hf. unfold names_of. rewrite map_map. apply map_ext. exact Hf. Qed.
+
+Lemma strip_setPK_KO oa k : pkind k = KO -> set_kind KO (strip oa (set_kind PK k)) = strip oa k.
+Proof. intros H. destruct k as [n kk d a u]. cbn in *. subst kk. destruct oa; destruct a; reflexivity. Qed.
+
+Lemma strip_setPK_PK oa p : pkind p = PK -> strip oa (set_kind PK p) = strip oa p.
+Proof. intros H. rewrite (set_kind_same PK p H). reflexivity. Qed.
+
+Lemma nodup_mid {T} (A B C D : list T) x :
+  NoDup (A ++ B ++ C ++ D) -> In x C -> ~ In x (A ++ B ++ D).
+Proof.
+  intros ND HC.
+  assert (HP : Permutation (A ++ B ++ C ++ D) (C ++ A ++ B ++ D)).
+  { transitivity (A ++ C ++ B ++ D).
+    - apply Permutation_app_head. apply Permutation_app_swap_app.
+    - apply Permutation_app_swap_app. }
+  apply (Permutation_NoDup HP) in ND. exact (NoDup_app_disj _ _ x ND HC).
+Qed.
+
+Section KwoAssembly.
+Variables (oa : bool) (P1 P2 V K W : list param).
+Hypothesis HP : all_kind PK (P1 ++ P2).
+Hypothesis HV : all_kind VP V.
+Hypothesis HK : all_kind KO K.
+Hypothesis HW : all_kind VK W.
+Hypothesis HlV : (length V <= 1)%nat.
+Hypothesis HlW : (length W <= 1)%nat.
+Hypothesis H1 : forall p, In p P1 -> pdef p = None.
+Hypothesis H2 : forall p, In p P2 -> has_def p = true.
+Hypothesis HVd : forall v, In v V -> pdef v = None.
+Hypothesis HWd : forall w, In w W -> pdef w = None.
+Hypothesis ND : NoDup (names_of ((P1 ++ P2) ++ V ++ K ++ W)).
+
+Let Kn := filter nodef_p K.
+Let Kd := filter has_def K.
+Let X1 := map (set_kind PK) (P1 ++ Kn).
+Let X2 := map (set_kind PK) (P2 ++ Kd).
+Let DL := map (item oa) (P1 ++ Kn) ++ map (item oa) (P2 ++ Kd) ++ map (item oa) V ++ map (item oa) W.
+
+Lemma HP1' : all_kind PK P1. Proof. intros p Hp. apply HP. apply in_or_app. left. exact Hp. Qed.
+Lemma HP2' : all_kind PK P2. Proof. intros p Hp. apply HP. apply in_or_app. right. exact Hp. Qed.
+Lemma HKn : all_kind KO Kn. Proof. intros p Hp. apply filter_In in Hp. apply HK. tauto. Qed.
+Lemma HKd : all_kind KO Kd. Proof. intros p Hp. apply filter_In in Hp. apply HK. tauto. Qed.
+
+Lemma plain_P1Kn : forall p, In p (P1 ++ Kn) -> plain p.
+Proof.
+  intros p Hp. apply plain_kind. apply in_app_or in Hp. destruct Hp as [Hp|Hp].
+  - right. left. exact (HP1' p Hp).
+  - right. right. exact (HKn p Hp).
+Qed.
+Lemma plain_P2Kd : forall p, In p (P2 ++ Kd) -> plain p.
+Proof.
+  intros p Hp. apply plain_kind. apply in_app_or in Hp. destruct Hp as [Hp|Hp].
+  - right. left. exact (HP2' p Hp).
+  - right. right. exact (HKd p Hp).
+Qed.
+
+Lemma DL_native : DL = native_params oa [] (X1 ++ X2) V [] W.
+Proof.
+  unfold DL, native_params, X1, X2. cbn [map slp app].
+  assert (E : stp false V [] = []) by (destruct V; reflexivity). rewrite E. cbn [app].
+  rewrite (map_app (item oa) (map (set_kind PK) (P1 ++ Kn))).
+  rewrite (map_item_setPK oa _ plain_P1Kn), (map_item_setPK oa _ plain_P2Kd).
+  rewrite <- app_assoc. reflexivity.
+Qed.
+
+Lemma perm_def_order :
+  Permutation ((P1 ++ P2) ++ V ++ K ++ W) (((P1 ++ Kn) ++ (P2 ++ Kd)) ++ V ++ W).
+Proof.
+  transitivity ((P1 ++ P2) ++ V ++ (Kn ++ Kd) ++ W).
+  - apply Permutation_app_head. apply Permutation_app_head. apply Permutation_app_tail.
+    apply Permutation_sym. apply ko_split_perm.
+  - apply def_order_perm.
+Qed.
+
+Lemma valid_def_list : valid_sig ((X1 ++ X2) ++ V ++ W) = true.
+Proof.
+  change ((X1 ++ X2) ++ V ++ W) with ((X1 ++ X2) ++ V ++ [] ++ W).
+  apply valid_sig_build; try assumption.
+  - apply all_kind_app; apply all_kind_setPK.
+  - intros p [].
+  - intros p Hp. unfold X1 in Hp. apply in_map_iff in Hp. destruct Hp as [q [<- Hq]].
+    change (has_def (set_kind PK q)) with (has_def q).
+    apply in_app_or in Hq. destruct Hq as [Hq|Hq].
+    + unfold has_def. rewrite (H1 q Hq). reflexivity.
+    + apply filter_In in Hq. destruct Hq as [_ Hq]. unfold nodef_p in Hq. apply negb_true_iff in Hq. exact Hq.
+  - intros p Hp. unfold X2 in Hp. apply in_map_iff in Hp. destruct Hp as [q [<- Hq]].
+    change (has_def (set_kind PK q)) with (has_def q).
+    apply in_app_or in Hq. destruct Hq as [Hq|Hq]; [exact (H2 q Hq)|].
+    apply filter_In in Hq. tauto.
+  - cbn [app]. unfold X1, X2. rewrite <- map_app.
+    rewrite names_of_app, (names_of_map_same (set_kind PK)) by reflexivity.
+    rewrite <- names_of_app. exact (NoDup_names_perm _ _ perm_def_order ND).
+Qed.
+
+Lemma kwo_def_sig names an po kw ret :
+  def_sig (func_code (mkRSig names an po kw DL) ret oa)
+  = Some (map (strip oa) ((X1 ++ X2) ++ V ++ W)).
+Proof.
+  unfold def_sig, func_code. cbn [fc_params rs_params]. rewrite DL_native.
+  rewrite (def_params_native oa [] (X1 ++ X2) V [] W).
+  - change ([] ++ (X1 ++ X2) ++ V ++ [] ++ W) with ((X1 ++ X2) ++ V ++ W).
+    rewrite valid_sig_strip, valid_def_list. reflexivity.
+  - intros p [].
+  - apply all_kind_app; apply all_kind_setPK.
+  - exact HV.
+  - intros p [].
+  - exact HW.
+  - exact HlV.
+  - exact HlW.
+  - change ([] ++ (X1 ++ X2) ++ V ++ [] ++ W) with ((X1 ++ X2) ++ V ++ W).
+    rewrite (star_nodef_app (X1 ++ X2)), (star_nodef_app V).
+    rewrite (star_nodef_pk (X1 ++ X2)) by (apply all_kind_app; apply all_kind_setPK).
+    rewrite (star_nodef_nodef V HVd), (star_nodef_nodef W HWd). reflexivity.
+Qed.
+
+Definition sorted_ps : list param := (P1 ++ P2) ++ V ++ (Kn ++ Kd) ++ W.
+
+Lemma valid_sorted : valid_sig sorted_ps = true.
+Proof.
+  unfold sorted_ps. apply valid_sig_build; try assumption.
+  - apply all_kind_app; [exact HKn|exact HKd].
+  - intros p Hp. unfold has_def. rewrite (H1 p Hp). reflexivity.
+  - apply (NoDup_names_perm ((P1 ++ P2) ++ V ++ K ++ W)); [|exact ND].
+    apply Permutation_app_head. apply Permutation_app_head. apply Permutation_app_tail.
+    apply Permutation_sym. apply ko_split_perm.
+Qed.
+
+Lemma notin_K_names p : In p ((P1 ++ P2) ++ V ++ W) -> mem (pname p) (names_of K) = false.
+Proof.
+  intros Hp. apply mem_false_notin. intros HinK.
+  pose proof ND as ND'.
+  rewrite (names_of_app (P1 ++ P2)), (names_of_app V), (names_of_app K) in ND'.
+  apply (nodup_mid _ _ _ _ (pname p) ND' HinK).
+  rewrite <- !names_of_app. apply in_map. exact Hp.
+Qed.
+
+Let g (p : param) : param := strip oa (set_kind PK p).
+Let L := (P1 ++ Kn) ++ (P2 ++ Kd).
+
+Lemma Y_form : map (strip oa) (X1 ++ X2) = map g L.
+Proof. unfold X1, X2, L, g. rewrite <- map_app, map_map. reflexivity. Qed.
+
+Lemma in_K_names k : In k K -> mem (pname k) (names_of K) = true.
+Proof. intros H. apply mem_In'. apply in_map. exact H. Qed.
+
+Lemma P1_out p : In p P1 -> mem (pname p) (names_of K) = false.
+Proof. intros H. apply notin_K_names. apply in_or_app. left. apply in_or_app. left. exact H. Qed.
+Lemma P2_out p : In p P2 -> mem (pname p) (names_of K) = false.
+Proof. intros H. apply notin_K_names. apply in_or_app. left. apply in_or_app. right. exact H. Qed.
+Lemma Kn_in p : In p Kn -> mem (pname p) (names_of K) = true.
+Proof. intros H. apply in_K_names. apply filter_In in H. tauto. Qed.
+Lemma Kd_in p : In p Kd -> mem (pname p) (names_of K) = true.
+Proof. intros H. apply in_K_names. apply filter_In in H. tauto. Qed.
+
+Lemma sel_L : filter (fun p => mem (pname p) (names_of K)) L = Kn ++ Kd.
+Proof.
+  unfold L. rewrite !filter_app.
+  rewrite (filter_none _ P1 P1_out), (filter_all _ Kn Kn_in), (filter_none _ P2 P2_out), (filter_all _ Kd Kd_in).
+  reflexivity.
+Qed.
+
+Lemma nsel_L : filter (fun p => negb (mem (pname p) (names_of K))) L = P1 ++ P2.
+Proof.
+  unfold L. rewrite !filter_app.
+  rewrite (filter_all _ P1) by (intros p Hp; rewrite (P1_out p Hp); reflexivity).
+  rewrite (filter_none _ Kn) by (intros p Hp; rewrite (Kn_in p Hp); reflexivity).
+  rewrite (filter_all _ P2) by (intros p Hp; rewrite (P2_out p Hp); reflexivity).
+  rewrite (filter_none _ Kd) by (intros p Hp; rewrite (Kd_in p Hp); reflexivity).
+  rewrite !app_nil_r. reflexivity.
+Qed.
+
+Lemma g_P A : all_kind PK A -> map g A = map (strip oa) A.
+Proof. intros HA. apply map_ext_in. intros p Hp. unfold g. apply strip_setPK_PK. exact (HA p Hp). Qed.
+
+Lemma g_K A : all_kind KO A -> map (set_kind KO) (map g A) = map (strip oa) A.
+Proof.
+  intros HA. rewrite map_map. apply map_ext_in. intros p Hp. unfold g. apply strip_setPK_KO. exact (HA p Hp).
+Qed.
+
+Lemma decorate_kwos ps0 (kw : list name) : kw <> [] ->
+  MM.decorate ps0 (MM.FExplicit [] kw) = (do r <- MM.prepare ps0 [] kw ;; Ok (fst r, snd r, [])).
+Proof. destruct kw; [congruence|reflexivity]. Qed.
+
+Lemma kwo_decorate :
+  exists kp po, MM.decorate (map (strip oa) ((X1 ++ X2) ++ V ++ W)) (MM.FExplicit [] (names_of K))
+                = Ok (map (strip oa) sorted_ps, kp, po).
+Proof.
+  destruct (names_of K) as [|n l] eqn:EK.
+  - assert (K0 : K = []) by (destruct K; [reflexivity|discriminate]).
+    rewrite decorate_none. exists [], []. f_equal. f_equal. f_equal.
+    unfold sorted_ps, X1, X2, Kn, Kd. rewrite K0. cbn [filter]. rewrite !app_nil_r. cbn [app].
+    rewrite <- map_app. f_equal. f_equal.
+    rewrite <- (map_id (P1 ++ P2)) at 2. apply map_ext_in. intros p Hp. apply set_kind_same. exact (HP p Hp).
+  - rewrite decorate_kwos by discriminate. rewrite <- EK.
+    rewrite !map_app. rewrite <- map_app. rewrite Y_form.
+    destruct (prepare_kwo (names_of K) (map g L) (map (strip oa) V) (map (strip oa) W)) as [kp E].
+    + intros p Hp. apply in_map_iff in Hp. destruct Hp as [q [<- _]]. reflexivity.
+    + apply all_kind_strip. exact HV.
+    + apply all_kind_strip. exact HW.
+    + rewrite map_length. exact HlV.
+    + rewrite map_length. exact HlW.
+    + intros p Hp. rewrite <- map_app in Hp. apply in_map_iff in Hp. destruct Hp as [q [<- Hq]].
+      change (pname (strip oa q)) with (pname q). apply notin_K_names.
+      apply in_or_app. right. exact Hq.
+    + intros y Hy.
+      rewrite (filter_map_name g (fun n0 => mem n0 (names_of K)) L) by reflexivity.
+      rewrite sel_L. rewrite (names_of_map_same g) by reflexivity.
+      apply mem_In'. apply mem_In' in Hy.
+      unfold names_of. apply (Permutation_in _ (Permutation_map pname (Permutation_sym (ko_split_perm K)))).
+      exact Hy.
+    + rewrite (filter_map_name g (fun n0 => negb (mem n0 (names_of K))) L) by reflexivity.
+      rewrite (filter_map_name g (fun n0 => mem n0 (names_of K)) L) by reflexivity.
+      rewrite sel_L, nsel_L. rewrite (g_P _ HP), (g_K _ (all_kind_app _ _ _ HKn HKd)).
+      rewrite <- !map_app. unfold validate. rewrite validate_aux_strip.
+      exact (valid_sig_validate _ valid_sorted).
+    + rewrite E. cbn [Base.bind fst snd].
+      rewrite (filter_map_name g (fun n0 => negb (mem n0 (names_of K))) L) by reflexivity.
+      rewrite (filter_map_name g (fun n0 => mem n0 (names_of K)) L) by reflexivity.
+      rewrite sel_L, nsel_L. rewrite (g_P _ HP), (g_K _ (all_kind_app _ _ _ HKn HKd)).
+      rewrite <- !map_app. eexists. eexists. reflexivity.
+Qed.
+
+End KwoAssembly.
+
+(* ================================================================ part 10 *)
+Lemma sorted_ps_ko P1 P2 V K W :
+  all_kind PK (P1 ++ P2) -> all_kind VP V -> all_kind KO K -> all_kind VK W ->
+  ko_sorted ((P1 ++ P2) ++ V ++ K ++ W) = sorted_ps P1 P2 V K W.
+Proof.
+  intros HP HV HK HW. rewrite (ko_sorted_shape (P1 ++ P2) V K W HP HV HK HW).
+  unfold sorted_ps. rewrite <- !app_assoc. reflexivity.
+Qed.
+
+Lemma sorted_ps_perm P1 P2 V K W : Permutation (sorted_ps P1 P2 V K W) ((P1 ++ P2) ++ V ++ K ++ W).
+Proof.
+  unfold sorted_ps. apply Permutation_app_head. apply Permutation_app_head. apply Permutation_app_tail.
+  apply ko_split_perm.
+Qed.
+
+(* C20 round trip, use_modifiers_kwoargs (with or without the other two
+   options), every signature without positional-only parameters: the signature
+   comes back with the keyword-only parameters regrouped (those without a
+   default first) *)
+Theorem roundtrip_kwoargs ps ret oa op :
+  wf_sig ps = true -> has_kind PO ps = false ->
+  code_sig (func_code (read_sig (print_sig ps) oa op true) ret oa) = Some (ko_sorted ps, ret).
+Proof.
+  intros Hwf Hnopo. destruct (wf_sig_parts ps Hwf) as [Hv [He Hsn]].
+  pose proof (valid_sig_nodup ps Hv) as ND.
+  destruct (valid_sig_shape ps Hv) as (O & P & V & K & W & E & HO & HP & HV & HK & HW & HlV & HlW).
+  assert (EO : O = []) by (rewrite E in Hnopo; exact (nopo_O _ _ HO Hnopo)).
+  subst O. cbn [app] in E.
+  destruct (validate_parts ps (valid_sig_validate ps Hv)) as [_ [Hdefs _]].
+  rewrite E in Hdefs.
+  destruct (defs_split P (V ++ K ++ W) HP Hdefs) as (P1 & P2 & EP & H1 & H2).
+  subst P.
+  assert (HVd : forall v, In v V -> pdef v = None).
+  { intros v Hv0. apply (star_nodef_vp ps v Hsn); [|left; exact (HV v Hv0)].
+    rewrite E. apply in_or_app. right. apply in_or_app. left. exact Hv0. }
+  assert (HWd : forall w, In w W -> pdef w = None).
+  { intros w Hw0. apply (star_nodef_vp ps w Hsn); [|right; exact (HW w Hw0)].
+    rewrite E. apply in_or_app. right. apply in_or_app. right. apply in_or_app. right. exact Hw0. }
+  assert (ND' : NoDup (names_of ((P1 ++ P2) ++ V ++ K ++ W))) by (rewrite <- E; exact ND).
+  rewrite read_sig_print.
+  assert (Etok : print_from ps None = toks [] (P1 ++ P2) V K W).
+  { rewrite E. apply (print_from_shape [] (P1 ++ P2) V K W); assumption. }
+  rewrite Etok.
+  rewrite (read_sig_kwo oa op P1 P2 V K W HP HV HK HW HlV HlW H1 H2 HVd).
+  rewrite <- E.
+  unfold code_sig.
+  rewrite (kwo_def_sig oa P1 P2 V K W HP HV HK HW HlV HlW H1 H2 HVd HWd ND').
+  assert (Hpo : forall names an pl, fc_poso (func_code (mkRSig names an [] (names_of K) pl) ret oa) = [])
+    by reflexivity.
+  assert (Hkw : forall names an pl, fc_kwo (func_code (mkRSig names an [] (names_of K) pl) ret oa) = names_of K)
+    by reflexivity.
+  rewrite Hpo, Hkw.
+  destruct (kwo_decorate oa P1 P2 V K W HP HV HK HW HlV HlW H1 H2 ND') as (kp & po & Edec).
+  rewrite Edec.
+  replace (ko_sorted ps) with (sorted_ps P1 P2 V K W)
+    by (rewrite E; symmetry; apply sorted_ps_ko; assumption).
+  pose proof (sorted_ps_perm P1 P2 V K W) as Hperm. rewrite <- E in Hperm.
+  apply (finish_annotate ps (sorted_ps P1 P2 V K W) _ _ [] (names_of K) _ ret oa ND He).
+  - intros q Hq. exact (Permutation_in q Hperm Hq).
+  - intros x Hx. unfold names_of in *.
+    exact (Permutation_in x (Permutation_map pname (Permutation_sym Hperm)) Hx).
+  - reflexivity.
+Qed.
+
+(* ================================================================ part 11 *)
+(* (2) all modifiers spellings, signatures without positional-only parameters *)
+Theorem roundtrip_modifiers_all ps ret oa op ok :
+  wf_sig ps = true -> has_kind PO ps = false ->
+  code_sig (func_code (read_sig (print_sig ps) oa op ok) ret oa)
+  = Some ((if ok then ko_sorted ps else ps), ret).
+Proof.
+  intros Hwf Hn. destruct ok.
+  - apply roundtrip_kwoargs; assumption.
+  - apply roundtrip_native_code_sig; [exact Hwf|left; exact Hn].
+Qed.
+
+(* what "up to the order of keyword-only parameters" means *)
+Theorem ko_sorted_spec ps : valid_sig ps = true -> has_kind PO ps = false ->
+  Permutation (ko_sorted ps) ps
+  /\ filter (fun p => negb (is_kind KO p)) (ko_sorted ps) = filter (fun p => negb (is_kind KO p)) ps
+  /\ filter (is_kind KO) (ko_sorted ps) = filter ko_nodef ps ++ filter ko_def ps.
+Proof.
+  intros Hv Hn.
+  destruct (valid_sig_shape ps Hv) as (O & P & V & K & W & E & HO & HP & HV & HK & HW & HlV & HlW).
+  assert (EO : O = []) by (rewrite E in Hn; exact (nopo_O _ _ HO Hn)). subst O. cbn [app] in E. subst ps.
+  rewrite (ko_sorted_shape P V K W HP HV HK HW).
+  assert (HKn : all_kind KO (filter nodef_p K)) by (intros p Hp; apply filter_In in Hp; apply HK; tauto).
+  assert (HKd : all_kind KO (filter has_def K)) by (intros p Hp; apply filter_In in Hp; apply HK; tauto).
+  split; [|split].
+  - apply Permutation_app_head. apply Permutation_app_head. rewrite app_assoc.
+    apply Permutation_app_tail. apply ko_split_perm.
+  - rewrite !filter_app.
+    set (f := fun p => negb (is_kind KO p)).
+    rewrite (filter_kind_none KO _ f HKn) by (intros p Ep; unfold f; rewrite (is_kind_of KO KO p Ep); reflexivity).
+    rewrite (filter_kind_none KO _ f HKd) by (intros p Ep; unfold f; rewrite (is_kind_of KO KO p Ep); reflexivity).
+    rewrite (filter_kind_none KO K f HK) by (intros p Ep; unfold f; rewrite (is_kind_of KO KO p Ep); reflexivity).
+    reflexivity.
+  - rewrite !filter_app.
+    rewrite (filter_kind_none PK P (is_kind KO) HP) by (intros p Ep; rewrite (is_kind_of PK KO p Ep); reflexivity).
+    rewrite (filter_kind_none VP V (is_kind KO) HV) by (intros p Ep; rewrite (is_kind_of VP KO p Ep); reflexivity).
+    rewrite (filter_kind_none VK W (is_kind KO) HW) by (intros p Ep; rewrite (is_kind_of VK KO p Ep); reflexivity).
+    rewrite (filter_kind_all KO _ (is_kind KO) HKn) by (intros p Ep; rewrite (is_kind_of KO KO p Ep); reflexivity).
+    rewrite (filter_kind_all KO _ (is_kind KO) HKd) by (intros p Ep; rewrite (is_kind_of KO KO p Ep); reflexivity).
+    rewrite (filter_kind_none PK P ko_nodef HP) by (intros p Ep; unfold ko_nodef; rewrite (is_kind_of PK KO p Ep); reflexivity).
+    rewrite (filter_kind_none VP V ko_nodef HV) by (intros p Ep; unfold ko_nodef; rewrite (is_kind_of VP KO p Ep); reflexivity).
+    rewrite (filter_kind_none VK W ko_nodef HW) by (intros p Ep; unfold ko_nodef; rewrite (is_kind_of VK KO p Ep); reflexivity).
+    rewrite (filter_kind_none PK P ko_def HP) by (intros p Ep; unfold ko_def; rewrite (is_kind_of PK KO p Ep); reflexivity).
+    rewrite (filter_kind_none VP V ko_def HV) by (intros p Ep; unfold ko_def; rewrite (is_kind_of VP KO p Ep); reflexivity).
+    rewrite (filter_kind_none VK W ko_def HW) by (intros p Ep; unfold ko_def; rewrite (is_kind_of VK KO p Ep); reflexivity).
+    assert (E1 : filter ko_nodef K = filter nodef_p K).
+    { apply filter_ext_in''. intros p Hp. unfold ko_nodef, nodef_p. rewrite (is_kind_of KO KO p (HK p Hp)). reflexivity. }
+    assert (E2 : filter ko_def K = filter has_def K).
+    { apply filter_ext_in''. intros p Hp. unfold ko_def. rewrite (is_kind_of KO KO p (HK p Hp)). reflexivity. }
+    rewrite E1, E2. cbn [app]. rewrite !app_nil_r. reflexivity.
+Qed.
+
+(* ------------------------------------------------ hypotheses that are needed *)
+(* a star parameter with a default (inspect refuses to build one) *)
+Theorem roundtrip_star_default_refuted :
+  exists ps, valid_sig ps = true /\ eager ps = true /\ roundtrip_native ps None = false.
+Proof. exists [mkParam 9 VP (Some 1) None UEmpty]. vm_compute. auto. Qed.
+
+(* an annotation whose upgraded form is not the eagerly evaluated object (a
+   postponed annotation, or a hand-built parameter): the def gives the
+   evaluated one *)
+Theorem roundtrip_not_eager_refuted :
+  exists ps, valid_sig ps = true /\ star_nodef ps = true /\ roundtrip_native ps None = false.
+Proof. exists [mkParam 1 PK None (Some 5) (UPost 5 100)]. vm_compute. auto. Qed.
+
+(* use_modifiers_kwoargs with positional-only parameters: the def that
+   read_sig builds is not accepted (the statement excludes these signatures) *)
+Theorem roundtrip_kwoargs_po_refuted :
+  exists ps, wf_sig ps = true /\
+    code_sig (func_code (read_sig (print_sig ps) false false true) None false) = None /\
+  exists ps', wf_sig ps' = true /\
+    code_sig (func_code (read_sig (print_sig ps') false true true) None false) = None.
+Proof.
+  exists [pp 1 PO (Some 1) None; pp 2 KO None None]. split; [vm_compute; reflexivity|].
+  split; [vm_compute; reflexivity|].
+  exists [pp 1 PO None None; pp 2 KO (Some 2) None; pp 3 KO None None].
+  split; vm_compute; reflexivity.
+Qed.
+
+(* the hypotheses are satisfiable on a signature with every kind, defaults and
+   annotations, and the keyword-only order really changes *)
+Example wf_sig_example :
+  let ps := [pp 1 PK None None; pp 2 PK (Some 1) (Some 5); pp 9 VP None (Some 6);
+             pp 3 KO (Some 2) None; pp 4 KO None (Some 7); pp 5 KO (Some 3) None;
+             pp 6 KO None None; pp 10 VK None (Some 8)] in
+  wf_sig ps = true /\ has_kind PO ps = false /\
+  ko_sorted ps = [pp 1 PK None None; pp 2 PK (Some 1) (Some 5); pp 9 VP None (Some 6);
+                  pp 4 KO None (Some 7); pp 6 KO None None; pp 3 KO (Some 2) None;
+                  pp 5 KO (Some 3) None; pp 10 VK None (Some 8)].
+Proof. vm_compute. auto. Qed.
+
+Example wf_sig_example_po :
+  wf_sig [pp 1 PO None (Some 5); pp 2 PO (Some 1) None; pp 7 PK (Some 1) None;
+          pp 3 KO (Some 2) None; pp 4 KO None (Some 7)] = true.
+Proof. vm_compute. reflexivity. Qed.
+
+(* ================================================================ part 12 *)
+(* beyond the statement: use_modifiers_posoargs for signatures WITH
+   positional-only parameters (no use_modifiers_kwoargs) *)
+Lemma seg_O_op oa ok O i st : all_kind PO O -> r_found_star st = false ->
+  exists D, rs_loop oa true ok i (map tk O ++ sl O) st
+  = mkRS (r_names st ++ names_of O) (add_anns oa O (r_anns st))
+         (r_poso st ++ match O with [] => [] | _ => r_names st ++ names_of O end) (r_kwo st)
+         (r_params st ++ map (item oa) O) false (r_varargs st) (r_varkwargs st) (r_chevron st) D.
+Proof.
+  intros HO Hf.
+  destruct O as [|o O].
+  - cbn [map sl app rs_loop names_of add_anns fold_left]. rewrite !app_nil_r.
+    destruct st as [nm an po kw pr fs va vk ch df]. cbn [r_found_star] in Hf. subst fs.
+    eexists. reflexivity.
+  - rewrite rs_loop_app.
+    assert (HA : all_pos (o :: O)) by (intros p Hp; left; exact (HO p Hp)).
+    rewrite (seg_pos oa true ok (o :: O) i st HA Hf).
+    cbn [sl rs_loop]. rewrite step_slash_op.
+    cbn [r_names r_anns r_poso r_kwo r_params r_found_star r_varargs r_varkwargs r_chevron r_default].
+    eexists. reflexivity.
+Qed.
+
+Definition poso_params (oa : bool) (O P V K W : list param) : list ptok :=
+  map (item oa) O ++ map (item oa) P ++ map (item oa) V ++ stp false V K
+  ++ map (item oa) K ++ map (item oa) W.
+
+Lemma read_sig_poso oa O P V K W :
+  all_kind PO O -> all_kind PK P -> all_kind VP V -> all_kind KO K -> all_kind VK W ->
+  (length V <= 1)%nat -> (length W <= 1)%nat ->
+  read_sig (toks O P V K W) oa true false
+  = mkRSig (names_of O ++ names_of P ++ names_of K ++ names_of V ++ names_of W)
+           (add_anns oa (O ++ P ++ V ++ K ++ W) []) (names_of O) []
+           (poso_params oa O P V K W).
+Proof.
+  intros HO HP HV HK HW HlV HlW. unfold read_sig, toks.
+  assert (E : map tk O ++ sl O ++ map tk P ++ map tk V ++ st_ V K ++ map tk K ++ map tk W
+              = (map tk O ++ sl O) ++ map tk P ++ (map tk V ++ st_ V K) ++ map tk K ++ map tk W)
+    by (rewrite <- !app_assoc; reflexivity).
+  rewrite E. clear E.
+  rewrite rs_loop_app.
+  destruct (seg_O_op oa false O 0 rs_init HO eq_refl) as [D1 E1]. rewrite E1. clear E1.
+  cbn [rs_init r_names r_anns r_poso r_kwo r_params r_varargs r_varkwargs r_chevron app].
+  assert (Epo : match O with [] => [] | _ :: _ => names_of O end = names_of O) by (destruct O; reflexivity).
+  rewrite Epo.
+  rewrite rs_loop_app.
+  assert (HPp : all_pos P) by (intros p Hp; right; exact (HP p Hp)).
+  match goal with |- context [rs_loop oa true false ?i (map tk P) ?s] =>
+    rewrite (seg_pos oa true false P i s HPp eq_refl) end.
+  cbn [r_names r_anns r_poso r_kwo r_params r_found_star r_varargs r_varkwargs r_chevron r_default].
+  rewrite rs_loop_app.
+  match goal with |- context [rs_loop oa true false ?i (map tk V ++ st_ V K) ?s] =>
+    destruct (seg_VS oa true false V K i s HV HlV eq_refl) as [D2 E2]; rewrite E2; clear E2 end.
+  cbn [r_names r_anns r_poso r_kwo r_params r_found_star r_varargs r_varkwargs r_chevron r_default orb].
+  rewrite rs_loop_app.
+  match goal with |- context [rs_loop oa true false ?i (map tk K) ?s] =>
+    destruct (seg_K oa true K i s HK) as [D3 E3];
+      [destruct K; [left; reflexivity|right; cbn [r_found_star nonempty]; apply orb_true_r]|];
+      rewrite E3; clear E3 end.
+  cbn [r_names r_anns r_poso r_kwo r_params r_found_star r_varargs r_varkwargs r_chevron r_default].
+  match goal with |- context [rs_loop oa true false ?i (map tk W) ?s] =>
+    destruct (seg_W oa true false W i s HW HlW eq_refl) as [D4 E4]; rewrite E4; clear E4 end.
+  cbn [r_names r_anns r_poso r_kwo r_params r_found_star r_varargs r_varkwargs r_chevron r_default].
+  unfold poso_params. rewrite !add_anns_app. rewrite <- !app_assoc.
+  f_equal.
+  destruct V as [|v [|v2 V]]; cbn [length] in HlV; try lia;
+  destruct W as [|w [|w2 W]]; cbn [length] in HlW; try lia;
+  cbn [optname opt_list_name names_of map app]; rewrite ?app_nil_r; reflexivity.
+Qed.
+
+Section PreparePoso.
+Variable posos : list name.
+
+Definition rem_po (A : list param) (tu : list name) : list name :=
+  fold_left (fun t p => MM.set_remove (pname p) t) A tu.
+
+Lemma mem_rem_po A : forall tu y,
+  mem y (rem_po A tu) = mem y tu && negb (mem y (names_of A)).
+Proof.
+  unfold rem_po. induction A as [|p A IH]; intros tu y; cbn [fold_left names_of map mem].
+  - rewrite andb_true_r. reflexivity.
+  - rewrite IH, mem_set_remove'. fold (names_of A). rewrite (N.eqb_sym y (pname p)).
+    destruct (N.eqb (pname p) y), (mem y tu), (mem y (names_of A)); reflexivity.
+Qed.
+
+(* the selected parameters: all regular, all named in posos, before any other
+   regular parameter *)
+Lemma prep_po A : forall i st, all_kind PK A ->
+  (forall p, In p A -> mem (pname p) posos = true) -> MM.st_found_pok st = false ->
+  MM.prep_loop posos [] A i st
+  = Ok (MM.mkPS (MM.st_params st ++ map (set_kind PO) A) (MM.st_kwoparams st) (MM.st_kwopos st)
+                false (MM.st_found_kws st) (rem_po A (MM.st_to_use st))).
+Proof.
+  induction A as [|p A IH]; intros i st HA Hin Hf.
+  - cbn [MM.prep_loop map rem_po fold_left]. rewrite app_nil_r. destruct st. cbn in Hf. subst. reflexivity.
+  - cbn [MM.prep_loop]. unfold MM.prep_step. rewrite (HA p (or_introl eq_refl)).
+    rewrite (Hin p (or_introl eq_refl)), Hf. cbn [Base.bind].
+    rewrite IH; [|exact (all_kind_tail _ _ _ HA)|intros q Hq; apply Hin; right; exact Hq|reflexivity].
+    cbn [MM.st_params MM.st_kwoparams MM.st_kwopos MM.st_found_kws MM.st_to_use map rem_po fold_left].
+    rewrite <- app_assoc. reflexivity.
+Qed.
+
+(* everything else is kept as it is *)
+Lemma prep_rest R : forall i st,
+  (forall p, In p R -> mem (pname p) posos = false) ->
+  (forall y, mem y (MM.st_to_use st) = false) -> MM.st_kwoparams st = [] ->
+  exists KP FP FK, MM.prep_loop posos [] R i st
+  = Ok (MM.mkPS (MM.st_params st ++ R) [] KP FP FK (MM.st_to_use st)).
+Proof.
+  induction R as [|p R IH]; intros i st Hout Htu Hkw.
+  - cbn [MM.prep_loop]. rewrite app_nil_r. destruct st. cbn in Hkw. subst. eexists. eexists. eexists. reflexivity.
+  - cbn [MM.prep_loop]. unfold MM.prep_step. rewrite (Hout p (or_introl eq_refl)). cbn [mem].
+    rewrite (Htu (pname p)). rewrite Hkw.
+    destruct (pkind p) eqn:K; cbn [Base.bind kind_eqb kind_rank Nat.eqb];
+      (match goal with |- context [MM.prep_loop posos [] R (S i) ?s] =>
+         destruct (IH (S i) s) as (KP & FP & FK & E);
+           [intros q Hq; apply Hout; right; exact Hq|exact Htu|reflexivity|] end);
+      rewrite E; cbn [MM.st_params MM.st_to_use]; rewrite ?app_nil_r, <- ?app_assoc;
+      eexists; eexists; eexists; reflexivity.
+Qed.
+
+Lemma prepare_poso Y R :
+  Y <> [] -> all_kind PK Y -> (forall p, In p Y -> mem (pname p) posos = true) ->
+  (forall p, In p R -> mem (pname p) posos = false) ->
+  (forall y, mem y posos = true -> mem y (names_of Y) = true) ->
+  validate (map (set_kind PO) Y ++ R) = true ->
+  exists kp, MM.prepare (Y ++ R) posos [] = Ok (map (set_kind PO) Y ++ R, kp).
+Proof.
+  intros Hne HY Hin Hout Hall Hval. unfold MM.prepare.
+  assert (Hi : MM.set_inter posos [] = []).
+  { unfold MM.set_inter. apply filter_none. intros x _. reflexivity. }
+  rewrite Hi. cbn [MM.is_nil negb].
+  rewrite (prep_loop_app' [] posos Y R 0).
+  rewrite (prep_po Y 0 (MM.mkPS [] [] [] false false (posos ++ [])) HY Hin eq_refl).
+  cbn [Base.bind MM.st_params MM.st_kwoparams MM.st_kwopos MM.st_found_kws MM.st_to_use app].
+  assert (Htu : forall y, mem y (rem_po Y (posos ++ [])) = false).
+  { intros y. rewrite mem_rem_po, app_nil_r. destruct (mem y posos) eqn:E; [|reflexivity].
+    rewrite (Hall y E). reflexivity. }
+  match goal with |- context [MM.prep_loop posos [] R ?i ?s] =>
+    destruct (prep_rest R i s Hout Htu eq_refl) as (KP & FP & FK & E) end.
+  rewrite E. cbn [Base.bind MM.st_found_kws MM.st_params MM.st_kwoparams MM.st_to_use MM.st_kwopos].
+  rewrite (is_nil_mem _ Htu). cbn [negb]. rewrite app_nil_r.
+  destruct FK; rewrite Hval; eexists; reflexivity.
+Qed.
+
+End PreparePoso.
+
+Lemma defs_ok_map (f : param -> param) A : forall R sd,
+  (forall p, In p A -> is_positional (f p) = is_positional p /\ has_def (f p) = has_def p) ->
+  defs_ok (map f A ++ R) sd = defs_ok (A ++ R) sd.
+Proof.
+  induction A as [|p A IH]; intros R sd H; [reflexivity|]. cbn [map app defs_ok].
+  destruct (H p (or_introl eq_refl)) as [E1 E2]. rewrite E1, E2.
+  rewrite IH by (intros q Hq; apply H; right; exact Hq). reflexivity.
+Qed.
+
+Lemma strip_setPK_PO oa o : pkind o = PO -> set_kind PO (strip oa (set_kind PK o)) = strip oa o.
+Proof. intros H. destruct o as [n kk d a u]. cbn in *. subst kk. destruct oa; destruct a; reflexivity. Qed.
+
+Lemma decorate_posos ps0 (po : list name) : po <> [] ->
+  MM.decorate ps0 (MM.FExplicit po []) = (do r <- MM.prepare ps0 po [] ;; Ok (fst r, snd r, po)).
+Proof. destruct po; [congruence|reflexivity]. Qed.
+
+Theorem roundtrip_posoargs ps ret oa :
+  wf_sig ps = true ->
+  code_sig (func_code (read_sig (print_sig ps) oa true false) ret oa) = Some (ps, ret).
+Proof.
+  intros Hwf. destruct (wf_sig_parts ps Hwf) as [Hv [He Hsn]].
+  pose proof (valid_sig_nodup ps Hv) as ND.
+  destruct (valid_sig_shape ps Hv) as (O & P & V & K & W & E & HO & HP & HV & HK & HW & HlV & HlW).
+  destruct (validate_parts ps (valid_sig_validate ps Hv)) as [_ [Hdefs _]].
+  set (X := map (set_kind PK) O ++ P).
+  assert (HX : all_kind PK X) by (apply all_kind_app; [apply all_kind_setPK|exact HP]).
+  assert (HplO : forall p, In p O -> plain p) by (intros p Hp; apply plain_kind; left; exact (HO p Hp)).
+  (* the def list *)
+  assert (Edl : poso_params oa O P V K W = native_params oa [] X V K W).
+  { unfold poso_params, native_params, X. cbn [map slp app].
+    rewrite (map_app (item oa) (map (set_kind PK) O)), (map_item_setPK oa O HplO).
+    rewrite <- app_assoc. reflexivity. }
+  (* its validity *)
+  assert (HdX : defs_ok (X ++ V ++ K ++ W) false = true).
+  { unfold X. rewrite <- app_assoc. rewrite defs_ok_map; [rewrite <- E; exact Hdefs|].
+    intros p Hp. unfold is_positional. cbn [pkind set_kind]. rewrite (HO p Hp). split; reflexivity. }
+  destruct (defs_split X (V ++ K ++ W) HX HdX) as (X1 & X2 & EX & HX1 & HX2).
+  assert (NDX : NoDup (names_of ((X1 ++ X2) ++ V ++ K ++ W))).
+  { rewrite <- EX. unfold X. rewrite <- app_assoc.
+    rewrite names_of_app, (names_of_map_same (set_kind PK)) by reflexivity.
+    rewrite <- names_of_app, <- E. exact ND. }
+  assert (HvX : valid_sig (X ++ V ++ K ++ W) = true).
+  { rewrite EX. rewrite EX in HX. apply valid_sig_build; try assumption.
+    intros p Hp. unfold has_def. rewrite (HX1 p Hp). reflexivity. }
+  assert (HsnX : star_nodef ([] ++ X ++ V ++ K ++ W) = true).
+  { cbn [app]. rewrite star_nodef_app, (star_nodef_pk X HX). cbn [andb].
+    rewrite E in Hsn. rewrite !star_nodef_app in Hsn. rewrite !star_nodef_app.
+    apply andb_true_iff in Hsn. destruct Hsn as [_ Hsn]. apply andb_true_iff in Hsn. destruct Hsn as [_ Hsn].
+    exact Hsn. }
+  rewrite read_sig_print. rewrite E at 1.
+  rewrite (print_from_shape O P V K W HO HP HV HK HW HlV HlW).
+  rewrite (read_sig_poso oa O P V K W HO HP HV HK HW HlV HlW).
+  rewrite <- E. rewrite Edl.
+  unfold code_sig.
+  assert (Hd : forall names an po kw,
+            def_sig (func_code (mkRSig names an po kw (native_params oa [] X V K W)) ret oa)
+            = Some (map (strip oa) (X ++ V ++ K ++ W))).
+  { intros names an po kw. unfold def_sig, func_code. cbn [fc_params rs_params].
+    rewrite (def_params_native oa [] X V K W) by (try assumption; intros p []).
+    cbn [app]. rewrite valid_sig_strip, HvX. reflexivity. }
+  rewrite Hd.
+  assert (Hpo : forall names an pl, fc_poso (func_code (mkRSig names an (names_of O) [] pl) ret oa) = names_of O)
+    by reflexivity.
+  assert (Hkw : forall names an pl, fc_kwo (func_code (mkRSig names an (names_of O) [] pl) ret oa) = [])
+    by reflexivity.
+  rewrite Hpo, Hkw.
+  assert (Edec : exists kp po, MM.decorate (map (strip oa) (X ++ V ++ K ++ W)) (MM.FExplicit (names_of O) [])
+                               = Ok (map (strip oa) ps, kp, po)).
+  { assert (EY : map (strip oa) (X ++ V ++ K ++ W)
+                 = map (strip oa) (map (set_kind PK) O) ++ map (strip oa) (P ++ V ++ K ++ W)).
+    { unfold X. rewrite <- app_assoc, map_app. reflexivity. }
+    assert (ER : map (set_kind PO) (map (strip oa) (map (set_kind PK) O)) ++ map (strip oa) (P ++ V ++ K ++ W)
+                 = map (strip oa) ps).
+    { rewrite E, (map_app (strip oa) O). f_equal. rewrite !map_map. apply map_ext_in.
+      intros q Hq. apply strip_setPK_PO. exact (HO q Hq). }
+    destruct (names_of O) as [|n l] eqn:EN.
+    - assert (O0 : O = []) by (destruct O; [reflexivity|discriminate]).
+      rewrite decorate_none. rewrite EY, <- ER. rewrite O0. cbn [map app].
+      eexists. eexists. reflexivity.
+    - rewrite decorate_posos by discriminate. rewrite <- EN. rewrite EY.
+      destruct (prepare_poso (names_of O) (map (strip oa) (map (set_kind PK) O))
+                             (map (strip oa) (P ++ V ++ K ++ W))) as [kp Ep].
+      + destruct O; [discriminate|]. cbn [map]. discriminate.
+      + apply all_kind_strip. apply all_kind_setPK.
+      + intros q Hq. rewrite map_map in Hq. apply in_map_iff in Hq. destruct Hq as [q0 [<- Hq0]].
+        change (pname (strip oa (set_kind PK q0))) with (pname q0).
+        apply mem_In'. apply in_map. exact Hq0.
+      + intros q Hq. apply in_map_iff in Hq. destruct Hq as [q0 [<- Hq0]].
+        change (pname (strip oa q0)) with (pname q0). apply mem_false_notin. intros Hin.
+        rewrite E, names_of_app in ND.
+        apply (NoDup_app_disj _ _ (pname q0) ND Hin). apply in_map. exact Hq0.
+      + intros y Hy. rewrite map_map. rewrite (names_of_map_same (fun x => strip oa (set_kind PK x))) by reflexivity.
+        exact Hy.
+      + rewrite ER. unfold validate. rewrite validate_aux_strip. exact (valid_sig_validate ps Hv).
+      + rewrite Ep. cbn [Base.bind fst snd]. rewrite ER. eexists. eexists. reflexivity. }
+  destruct Edec as (kp & po & Edec). rewrite Edec.
+  apply (finish_annotate ps ps _ _ (names_of O) [] _ ret oa ND He (incl_refl ps)); [auto|reflexivity].
+Qed.
+
+(* every spelling without use_modifiers_kwoargs, ALL signatures *)
+Theorem roundtrip_all_without_kwoargs ps ret oa op :
+  wf_sig ps = true ->
+  code_sig (func_code (read_sig (print_sig ps) oa op false) ret oa) = Some (ps, ret).
+Proof.
+  intros Hwf. destruct op.
+  - apply roundtrip_posoargs. exact Hwf.
+  - apply roundtrip_native_code_sig; [exact Hwf|right; reflexivity].
+Qed.
+
+Print Assumptions roundtrip_native_all.
+Print Assumptions roundtrip_native_code_sig.
+Print Assumptions roundtrip_all_without_kwoargs.
+Print Assumptions roundtrip_kwoargs.
+Print Assumptions roundtrip_modifiers_all.
+Print Assumptions ko_sorted_spec.
+Print Assumptions roundtrip_star_default_refuted.
+Print Assumptions roundtrip_not_eager_refuted.
+Print Assumptions roundtrip_kwoargs_po_refuted.
